@@ -119,9 +119,12 @@ func runCtxSweep(runner, outcome string, watches bool, timeout time.Duration, of
 	ev.Ended = ended.Load()
 	ev.OffsetUs = (endAt.Load() - int64(timeout)) / 1000
 	ev.LatUs = worst.Load() / 1000
-	marginUs := int64(1500) + 4*ev.LatUs
+	// the runner's deadline is a runtime timer: next to spinning goroutines it can be served many milliseconds late (timers run at
+	// scheduling points of their processor) without the latency probe, which sits on another processor, noticing - with busy
+	// goroutines no order is claimed; without them the margin is that of the RunActionWithTimeout sweep
+	marginUs := int64(4000) + 4*ev.LatUs
 	switch {
-	case !ev.Ended:
+	case !ev.Ended || busy > 0:
 		ev.Order = "either"
 	case ev.OffsetUs < -marginUs:
 		ev.Order = "finish-first"
@@ -172,11 +175,11 @@ func sweepCtx(a *hk.Args) error {
 	}
 	wg.Wait()
 	// clearly-before and clearly-after instants
-	for _, off := range []int{-900, -700, 3000, 6000} {
+	for _, off := range []int{-7000, -6000, 8000, 15000} {
 		for _, outcome := range []string{"nil", "error"} {
 			for _, watches := range []bool{false, true} {
-				w.Write(runCtxSweep("context", outcome, watches, 4*time.Millisecond, off, 0))
-				w.Write(runCtxSweep("store", outcome, watches, 4*time.Millisecond, off, 0))
+				w.Write(runCtxSweep("context", outcome, watches, 8*time.Millisecond, off, 0))
+				w.Write(runCtxSweep("store", outcome, watches, 8*time.Millisecond, off, 0))
 			}
 		}
 	}
